@@ -88,7 +88,10 @@ def c20List (args : List String) (impl : String) : String × String :=
                    else acceptListing2D pstx ord utxos buyer dummy chg fq
           match r with
           | .error e => (s!"accept:{showOErr e} pstx={showTx pstx}", if impl.startsWith "panic" then "false:panic" else
-              if impl.startsWith "ok" then "false:flow-completed-where-the-model-refuses" else "true")
+              -- the implementation completed a flow the model refuses: judge its transaction by the property itself
+              match parseTx? (fieldD f "tx") with
+              | some itx => if impl.startsWith "ok" then ordPred itx (fieldD f "v") (utxos ++ [ord]) ord buyer sout true 0 fq else "true"
+              | none => "true")
           | .ok shape =>
             match parseTx? (fieldD f "tx") with
             | none => (s!"ok pstx={showTx pstx} tx={showTx shape} v=*", if impl.startsWith "panic" then "false:panic" else "true")
@@ -112,7 +115,12 @@ def c20Bid (args : List String) (impl : String) : String × String :=
       let mk := if variant == "1" then makeBid bid ord.txid ord.vout utxos buyer dummy chg fq placeholder funny
                 else makeBid2D bid ord.txid ord.vout utxos buyer dummy chg fq placeholder funny
       match mk with
-      | .error e => ("make:" ++ showOErr e, if impl.startsWith "ok" then "false:flow-completed-where-the-model-refuses" else pan)
+      | .error e => ("make:" ++ showOErr e,
+          match parseTx? (fieldD f "tx") with
+          | some itx => if impl.startsWith "ok" then
+              ordPred itx (fieldD f "v") (utxos ++ [ord]) ord buyer { sats := bid, script := seller } false
+                (if variant == "1" then 1 else 2) fq else pan
+          | none => pan)
       | .ok bshape =>
         match parseTx? (fieldD f "pstx") with
         | none => (s!"? pstx={showTx bshape}", pan)
@@ -136,7 +144,11 @@ def c20Bid (args : List String) (impl : String) : String × String :=
           if !agree then ("*", pan) else
           match r with
           | .error e => (s!"accept:{showOErr e} pstx={showTx pstx}",
-              if impl.startsWith "ok" then "false:flow-completed-where-the-model-refuses" else pan)
+              match itx? with
+              | some itx => if impl.startsWith "ok" then
+                  ordPred itx (fieldD f "v") table ord buyer { sats := bid, script := seller } false
+                    (if variant == "1" then 1 else 2) fq else pan
+              | none => pan)
           | .ok shape =>
             match parseTx? (fieldD f "tx") with
             | none => (s!"ok pstx={showTx pstx} tx={showTx shape} v=*", pan)
